@@ -14,15 +14,6 @@ HHH = 'src/Hash.hh'
 ENC = 'src/Encoding.hh'
 RP = dict(driver='C10/hash.cc', sources=['src/Hash.cc', 'src/Strings.cc'])
 
-# regex that matches the opening of the single loop of a one-loop function: used to put ghost statements at
-# loop-body start (the loop header itself may change without breaking the anchor)
-LOOP1 = r'(\bfor\s*\([^{}]*\)\s*)\{'
-
-
-def ghost_at_loop_start(header_regex, ghost):
-    return Rule(header_regex, lambda m: m.group(1) + '{ ' + ghost + ' ', count=1, regex=True)
-
-
 # ------------------------------------------------------------------------------------------------------------------
 # CRC-32, FNV-1a
 # ------------------------------------------------------------------------------------------------------------------
@@ -42,7 +33,7 @@ def fold_unit(ctx, src):
         u.snippet(src, HHH, r'uint%s_t fnv1a%s\(const std::string& data, uint%s_t hash = FNV1A%s_START\);' % (w, w, w, w))
     u.function(src, HCC, r'uint32_t crc32\(const void\* vdata, size_t size, uint32_t cs\)',
                body_prefix=' g_i = 0; ',
-               rules=[ghost_at_loop_start(LOOP1,
+               rules=[LoopGhost(1,
                       'C10_CRC32_TABLE_ENTRY(g_t, C10_CRC32_INDEX(g_crc, ((const uint8_t*)vdata)[g_i])); '
                       'g_crc = C10_CRC32_UPDATE(g_crc, g_t); g_i++; g_n++;')],
                loops={1: '__CPROVER_assigns(offset, cs, g_crc, g_t, g_i, g_n)\n'
@@ -52,7 +43,7 @@ def fold_unit(ctx, src):
     for w in ('32', '64'):
         u.function(src, HCC, r'uint%s_t fnv1a%s\(const void\* data, size_t size, uint%s_t hash\)' % (w, w, w),
                    body_prefix=' g_i = 0; ',
-                   rules=[ghost_at_loop_start(LOOP1,
+                   rules=[LoopGhost(1,
                           'g_h%s = C10_FNV1A%s_STEP(g_h%s, ((const uint8_t*)data)[g_i]); g_i++; g_n++;' % (w, w, w))],
                    loops={1: '__CPROVER_assigns(data_ptr, hash, g_h%s, g_i, g_n)\n'
                              '__CPROVER_loop_invariant(g_i <= size && data_ptr == ((const uint8_t*)data) + g_i && g_n == __CPROVER_loop_entry(g_n) + g_i)\n'
@@ -81,9 +72,262 @@ def fold_groups(ctx):
         f = 'fnv1a' + w
         g = G('Hash.%s' % f, 'h_' + f, f, enforce=f, loops=True, kind='loop-contract', min_post=2,
               clause_note='contracts/C10_fold.h: result == FNV-1a recurrence hash = (hash ^ octet) * FNV_Prime over the buffer')
-        g.first = 'cadical'
+        g.first, g.stage1, g.engines = 'cadical', 90, ['cadical', 'cvc5']   # one 32/64-bit multiplier pair: cadical 8-20 s, minisat > 80 s
         G('Hash.%s.default-seed' % f, 'l_%s_default' % f, f, replace=[f], kind='lemma')
         G('Hash.%s.chain' % f, 'l_%s_chain' % f, f, replace=[f], kind='lemma', min_post=3)
+    return gs
+
+
+class LoopGhost:
+    """Rule-like object: ghost statements at the body start of loop number `ordinal` (textual order of for/while in the
+    text being rewritten).  Independent of the wording of the loop header, so a change of the header is seen by the
+    verifier instead of breaking the extraction.  Must fire exactly once (else ExtractionBreak)."""
+
+    def __init__(self, ordinal, ghost):
+        self.ordinal, self.ghost = ordinal, ghost
+        if re.search(r'\b(for|while|do)\b', ghost):
+            raise ValueError('ghost text must not contain loops')
+
+    def apply(self, text, where=''):
+        loops = lex.find_loops(text)
+        if not (1 <= self.ordinal <= len(loops)):
+            raise ExtractionBreak('%s: ghost for loop %d but only %d loops found' % (where, self.ordinal, len(loops)))
+        kind, pos = loops[self.ordinal - 1]
+        m = lex.mask(text)
+        j = pos
+        while j < len(m) and m[j] in ' \t\r\n':
+            j += 1
+        if kind == 'do' or j >= len(m) or m[j] != '{':
+            raise ExtractionBreak('%s: loop %d has no brace body' % (where, self.ordinal))
+        return text[:j + 1] + ' ' + self.ghost + ' ' + text[j + 1:]
+
+
+def at_start(ghost):
+    return Rule(r'\A\{', lambda m: '{ ' + ghost + ' ', count=1, regex=True)
+
+
+def at_end(ghost):
+    return Rule(r'\}\s*\Z', lambda m: ' ' + ghost + ' }', count=1, regex=True)
+
+
+def conj(fmt, n, sep=' && '):
+    return sep.join(fmt.format(i=i) for i in range(n))
+
+
+# ghost statements shared by the three block functions: record the byte of the padded message at ghost position g_k,
+# count the block, start the standard's working variables from the chaining value
+def block_prefix(blk, nw, sched):
+    s = ('g_seen = ((g_k >> 6) == g_nblk) ? ((const uint8_t*)%s)[g_k & 63] : g_seen; g_nblk++; g_r = 0; g_r2 = 0; ' % blk)
+    if sched:
+        s += 'g_Mj = C10_BE32_AT(%s, g_j); ' % blk
+    s += ' '.join('g_v[%d] = g_H[%d];' % (i, i) for i in range(nw))
+    return s
+
+
+ALGS = {
+    'MD5': dict(alg=1, nw=4, ctor=r'MD5::MD5\(const void\* data, size_t size\)',
+                intro=r'auto process_block = \[this\]\(const void\* block\) -> void', blk='block', pput='pput_u64l', put='put_u32l',
+                bin=r'string MD5::bin\(\) const', hex=r'string MD5::hex\(\) const',
+                struct=r'struct MD5 \{\s*uint32_t a0, b0, c0, d0;\s*MD5\(',
+                deleg=r'MD5::MD5\(const std::string& data\)\s*:\s*MD5\(data\.data\(\), data\.size\(\)\)\s*\{\s*\}'),
+    'SHA1': dict(alg=2, nw=5, ctor=r'SHA1::SHA1\(const void\* data, size_t size\)',
+                 intro=r'auto process_block = \[this\]\(const void\* block\) -> void', blk='block', pput='pput_u64b', put='put_u32b',
+                 bin=r'std::string SHA1::bin\(\) const', hex=r'std::string SHA1::hex\(\) const',
+                 struct=r'struct SHA1 \{\s*uint32_t h\[5\];\s*SHA1\(',
+                 deleg=r'SHA1::SHA1\(const std::string& data\)\s*:\s*SHA1\(data\.data\(\), data\.size\(\)\)\s*\{\s*\}'),
+    'SHA256': dict(alg=3, nw=8, ctor=r'SHA256::SHA256\(const void\* data, size_t size\)',
+                   intro=r'auto process_block = \[this\]\(const void\* data\)', blk='data', pput='pput_u64b', put='put_u32b',
+                   bin=r'std::string SHA256::bin\(\) const', hex=r'std::string SHA256::hex\(\) const',
+                   struct=r'struct SHA256 \{\s*uint32_t h\[8\];\s*SHA256\(',
+                   deleg=r'SHA256::SHA256\(const string& data\)\s*:\s*SHA256\(data\.data\(\), data\.size\(\)\)\s*\{\s*\}'),
+}
+
+GH_ASSIGNS = ('__CPROVER_object_whole(g_H), __CPROVER_object_whole(g_v), g_nblk, g_seen, g_T1, g_T2, g_xk, g_s, g_ti, g_Mj, '
+              'g_r, g_r2, g_load_ok, g_sched_ok')
+
+
+def block_rules(name):
+    """(rules, loops, nloops) for the lifted process_block lambda of `name`."""
+    if name == 'MD5':
+        rules = [
+            Rule(r'static const uint32_t shifts\[64\] = \{[^{}]*\};', '', count=1, regex=True),       # hoisted to file scope
+            Rule(r'static const uint32_t sine_table\[64\] = \{[^{}]*\};', '', count=1, regex=True),   # (dfcc havocs local statics)
+            Rule('fields[g]', 'le_uint32_t_conv(&fields[g])', count=1),     # implicit conversion operator of le_uint32_t
+            at_start(block_prefix('block', 4, False)),
+            # RFC 1321 operation number g_r on the registers A,B,C,D = g_v[0..3]
+            LoopGhost(1, 'g_xk = C10_LE32_AT(block, C10_MD5_K[g_r]); g_s = C10_MD5_S[g_r]; g_ti = C10_MD5_T[g_r]; '
+                         'C10_MD5_STEP(g_r, g_v[0], g_v[1], g_v[2], g_v[3], g_xk, g_s, g_ti); g_r++;'),
+            # A = A + AA ... D = D + DD
+            at_end(' '.join('g_H[%d] = g_v[%d] + g_H[%d];' % (i, i, i) for i in range(4))),
+        ]
+        loops = {1: '__CPROVER_assigns(x, a, b, c, d, __CPROVER_object_whole(g_v), g_xk, g_s, g_ti, g_r)\n'
+                    '__CPROVER_loop_invariant(x <= 64 && g_r == x)\n'
+                    '__CPROVER_loop_invariant((x & 3) == 0 ==> (a == g_v[0] && b == g_v[1] && c == g_v[2] && d == g_v[3]))\n'
+                    '__CPROVER_loop_invariant((x & 3) == 1 ==> (a == g_v[3] && b == g_v[0] && c == g_v[1] && d == g_v[2]))\n'
+                    '__CPROVER_loop_invariant((x & 3) == 2 ==> (a == g_v[2] && b == g_v[3] && c == g_v[0] && d == g_v[1]))\n'
+                    '__CPROVER_loop_invariant((x & 3) == 3 ==> (a == g_v[1] && b == g_v[2] && c == g_v[3] && d == g_v[0]))\n'
+                    '__CPROVER_decreases(64 - x)'}
+        return rules, loops, 1
+    if name == 'SHA1':
+        W = 'extended_fields'
+        rules = [
+            at_start(block_prefix('block', 5, True)),
+            # FIPS 180-4 6.1.2 step 3 for t = g_r
+            LoopGhost(3, 'g_T1 = C10_SHA1_T(g_r, g_v[0], g_v[1], g_v[2], g_v[3], g_v[4], %s[g_r]); g_v[4] = g_v[3]; g_v[3] = g_v[2]; '
+                         'g_v[2] = C10_SHA_ROTL(g_v[1], 30); g_v[1] = g_v[0]; g_v[0] = g_T1; g_r++;' % W),
+            # step 4, and the schedule facts at the ghost indices
+            at_end(' '.join('g_H[%d] = g_v[%d] + g_H[%d];' % (i, i, i) for i in range(5)) +
+                   ' g_load_ok = (%s[g_j] == g_Mj); g_sched_ok = (%s[g_t] == C10_SHA1_W(%s, g_t));' % (W, W, W)),
+        ]
+        loops = {
+            1: '__CPROVER_assigns(x, __CPROVER_object_whole(%s))\n'
+               '__CPROVER_loop_invariant(x <= 16)\n'
+               '__CPROVER_loop_invariant(g_j < x ==> %s[g_j] == g_Mj)\n'
+               '__CPROVER_loop_invariant(g_j >= x ==> %s[g_j] == C10_LE32_AT(block, g_j))\n'
+               '__CPROVER_decreases(16 - x)' % (W, W, W),
+            2: '__CPROVER_assigns(x, __CPROVER_object_whole(%s))\n'
+               '__CPROVER_loop_invariant(16 <= x && x <= 80)\n'
+               '__CPROVER_loop_invariant(%s[g_j] == g_Mj)\n'
+               '__CPROVER_loop_invariant(g_t < x ==> %s[g_t] == C10_SHA1_W(%s, g_t))\n'
+               '__CPROVER_decreases(80 - x)' % (W, W, W, W),
+            3: '__CPROVER_assigns(x, a, b, c, d, e, __CPROVER_object_whole(g_v), g_T1, g_r)\n'
+               '__CPROVER_loop_invariant(x <= 80 && g_r == x)\n'
+               '__CPROVER_loop_invariant(a == g_v[0] && b == g_v[1] && c == g_v[2] && d == g_v[3] && e == g_v[4])\n'
+               '__CPROVER_decreases(80 - x)',
+        }
+        return rules, loops, 3
+    W = 'w'
+    rules = [
+        at_start(block_prefix('data', 8, True)),
+        # FIPS 180-4 6.2.2 step 3 for t = g_r
+        LoopGhost(4, 'g_T1 = C10_SHA256_T1(g_v[4], g_v[5], g_v[6], g_v[7], C10_SHA256_K[g_r], w[g_r]); '
+                     'g_T2 = C10_SHA256_T2(g_v[0], g_v[1], g_v[2]); g_v[7] = g_v[6]; g_v[6] = g_v[5]; g_v[5] = g_v[4]; '
+                     'g_v[4] = g_v[3] + g_T1; g_v[3] = g_v[2]; g_v[2] = g_v[1]; g_v[1] = g_v[0]; g_v[0] = g_T1 + g_T2; g_r++;'),
+        # step 4 for word g_r2
+        LoopGhost(5, 'g_H[g_r2] = g_v[g_r2] + g_H[g_r2]; g_r2++;'),
+        at_end('g_load_ok = (w[g_j] == g_Mj); g_sched_ok = (w[g_t] == C10_SHA256_W(w, g_t));'),
+    ]
+    loops = {
+        1: '__CPROVER_assigns(x, __CPROVER_object_whole(w))\n'
+           '__CPROVER_loop_invariant(x <= 16)\n'
+           '__CPROVER_loop_invariant(g_j < x ==> w[g_j] == g_Mj)\n'
+           '__CPROVER_loop_invariant(g_j >= x ==> w[g_j] == C10_LE32_AT(data, g_j))\n'
+           '__CPROVER_decreases(16 - x)',
+        2: '__CPROVER_assigns(x, __CPROVER_object_whole(w))\n'
+           '__CPROVER_loop_invariant(16 <= x && x <= 64)\n'
+           '__CPROVER_loop_invariant(w[g_j] == g_Mj)\n'
+           '__CPROVER_loop_invariant(g_t < x ==> w[g_t] == C10_SHA256_W(w, g_t))\n'
+           '__CPROVER_decreases(64 - x)',
+        3: '__CPROVER_assigns(x, __CPROVER_object_whole(z))\n'
+           '__CPROVER_loop_invariant(x <= 8)\n'
+           '__CPROVER_loop_invariant(%s)\n'
+           '__CPROVER_decreases(8 - x)' % conj('({i} < x ==> z[{i}] == g_v[{i}])', 8),
+        4: '__CPROVER_assigns(x, __CPROVER_object_whole(z), __CPROVER_object_whole(g_v), g_T1, g_T2, g_r)\n'
+           '__CPROVER_loop_invariant(x <= 64 && g_r == x)\n'
+           '__CPROVER_loop_invariant(%s)\n'
+           '__CPROVER_decreases(64 - x)' % conj('z[{i}] == g_v[{i}]', 8),
+        5: '__CPROVER_assigns(x, __CPROVER_object_whole(self), __CPROVER_object_whole(g_H), g_r2)\n'
+           '__CPROVER_loop_invariant(x <= 8 && g_r2 == x)\n'
+           '__CPROVER_loop_invariant(C10_STATE_EQ(self))\n'
+           '__CPROVER_decreases(8 - x)',
+    }
+    return rules, loops, 5
+
+
+def generic_text(raw):
+    """what Unit._post makes of a piece of source text before the table rules run"""
+    for r in lex.GENERIC:
+        raw = r.apply(raw)
+    return lex.rewrite_casts(raw)
+
+
+def md_unit(ctx, src, name):
+    A = ALGS[name]
+    u = Unit(ctx, 'Hash_' + name.lower())
+    u.raw('#include <stdint.h>\n#include <stddef.h>\n#include <string.h>\n#include <inttypes.h>\n')
+    # object layout (the typedef in contracts/C10_md.h) and the delegating std::string constructor: textual checks
+    u.snippet(src, HHH, A['struct'])
+    u.snippet(src, HCC, A['deleg'])
+    # host byte order selection of Platform.hh, verbatim; bswap32 of Encoding.hh, verbatim
+    u.raw(u.snippet(src, 'src/Platform.hh', r'#if defined\(__BYTE_ORDER__\) && \(__BYTE_ORDER__ == __ORDER_LITTLE_ENDIAN__\).*?\n#endif'))
+    u.function(src, ENC, r'static inline uint32_t bswap32\(uint32_t a\)')
+    ctor_hdr, ctor_body, _, _ = lex.find_def(src.text(HCC), A['ctor'], 'constructor')
+    # function-local static tables -> file scope (dfcc treats local statics as assignable and havocs them)
+    if name == 'MD5':
+        u.raw(u.snippet(src, HCC, r'static const uint32_t shifts\[64\] = \{[^{}]*\};'))
+        u.raw(u.snippet(src, HCC, r'static const uint32_t sine_table\[64\] = \{[^{}]*\};'))
+    if name == 'SHA256':
+        u.raw(u.snippet(src, HCC, r'static const uint32_t k\[64\] = \{[^{}]*\};'))
+        u.function(src, HCC, r'static inline uint32_t rotate_right\(uint32_t x, uint8_t bits\)')
+    rules, loops, nloops = block_rules(name)
+    u.block(src, HCC, A['ctor'], A['intro'], new_header='void %s_process_block(%s* self, const void* %s)' % (name, name, A['blk']),
+            rules=rules, loops=loops, nloops=nloops)
+    # --- constructor: block loop + padding tail; the lambda definition is cut out (it is the function above)
+    lh, lb, ls, le_ = lex.find_block(ctor_body, A['intro'], 'lambda')
+    lam = generic_text(ctor_body[ls:le_])
+    crules = [Rule(lam + ';', '/* process_block: lifted */', count=1)]
+    if name == 'SHA256':
+        crules.append(Rule(r'static const uint32_t k\[64\] = \{[^{}]*\};', '', count=1, regex=True))
+    crules += [
+        Rule('process_block(', '%s_process_block(self, ' % name, count=2),
+        Rule('StringWriter w;', 'C10_writer w; C10_writer_init(&w);', count=1),
+        Rule('w.str().data()', 'C10_writer_data(&w)', count=1),
+        Rule(r'\bw\.size\(\)', 'C10_writer_size(&w)', count=3, regex=True),
+        Rule(r'\bw\.(write|put_u8|extend_to|%s)\(' % A['pput'], r'C10_writer_\1(&w, ', count=4, regex=True),
+        # the state handed to the first block
+        Rule('size_t processed_offset;', 'g_iv_ok = C10_STATE_IS_IV(self); size_t processed_offset;', count=1),
+    ]
+    cloops = {
+        1: '__CPROVER_assigns(processed_offset, __CPROVER_object_whole(self), %s)\n'
+           '__CPROVER_loop_invariant(processed_offset <= size && processed_offset == C10_MD_TOTAL(g_nblk))\n'
+           '__CPROVER_loop_invariant(C10_STATE_EQ(self))\n'
+           '__CPROVER_loop_invariant(g_k < processed_offset ==> g_seen == ((const uint8_t*)data)[g_k])\n'
+           '__CPROVER_decreases(size - processed_offset)' % GH_ASSIGNS,
+        2: '__CPROVER_assigns(z, __CPROVER_object_whole(self), %s)\n'
+           '__CPROVER_loop_invariant(z <= w.size && (z & 63) == 0 && C10_MD_TOTAL(g_nblk) == processed_offset + z)\n'
+           '__CPROVER_loop_invariant(C10_STATE_EQ(self))\n'
+           '__CPROVER_loop_invariant(g_k < processed_offset ==> g_seen == ((const uint8_t*)data)[g_k])\n'
+           '__CPROVER_loop_invariant((g_k >= processed_offset && g_k < processed_offset + z) ==> g_seen == w.data[g_wi])\n'
+           '__CPROVER_decreases(w.size - z)' % GH_ASSIGNS,
+    }
+    u.function(src, HCC, A['ctor'], new_header='void %s_ctor(%s* self, const void* data, size_t size)' % (name, name),
+               rules=crules, loops=cloops, nloops=2)
+    # --- bin(): out-parameter instead of the returned string
+    brules = [Rule('StringWriter w;', 'C10_writer_init(w);', count=1),
+              Rule(r'\bw\.(%s)\(' % A['put'], r'C10_writer_\1(w, ', count=A['nw'], regex=True),
+              Rule('return move(w.str());', 'return;', count=1)]
+    if name == 'MD5':
+        brules.insert(0, Rule(r'\((a0|b0|c0|d0)\)', r'(self->\1)', count=4, regex=True))     # implicit this
+    u.function(src, HCC, A['bin'], new_header='void %s_bin(const %s* self, C10_writer* w)' % (name, name), rules=brules)
+    u.function(src, HCC, A['hex'], new_header='void %s_hex(const %s* self, C10_hexstr* ret)' % (name, name),
+               rules=[Rule('return string_printf(', 'C10_string_printf_%d(ret, ' % A['nw'], count=1)])
+    return u
+
+
+def md_groups(ctx, name):
+    A = ALGS[name]
+    H = 'harness/C10/md.c'
+    low = name.lower()
+    D = ['C10_ALG=%d' % A['alg'], 'C10_UNIT="x_Hash_%s.c"' % low]
+    writer = ['C10_writer_init', 'C10_writer_write', 'C10_writer_put_u8', 'C10_writer_extend_to', 'C10_writer_' + A['pput']]
+    gs = []
+    gs.append(Group(name='Hash.%s.process_block' % name, harness=H, entry='h_block', function='%s::%s (process_block lambda)' % (name, name),
+                    enforce='%s_process_block' % name, loops=True, kind='loop-contract', defines=D, min_post=3, timeout=300,
+                    object_bits=12,
+                    clause_note='contracts/C10_md.h: state after == chaining value advanced by the standard\'s steps in lock-step; '
+                                'message schedule satisfies the standard\'s equations at the ghost indices',
+                    replay=Replay(mode=low, **RP)))
+    gs.append(Group(name='Hash.%s.constructor' % name, harness=H, entry='h_ctor', function='%s::%s(const void*, size_t)' % (name, name),
+                    enforce='%s_ctor' % name, replace=['%s_process_block' % name] + writer, loops=True, kind='loop-contract',
+                    defines=D + ['C10_PB_REPLACED=1'], min_post=6, timeout=300, object_bits=12,
+                    clause_note='contracts/C10_md.h: Merkle-Damgard driver and padding tail, size symbolic',
+                    replay=Replay(mode=low, **RP)))
+    gs.append(Group(name='Hash.%s.bin' % name, harness=H, entry='h_bin', function='%s::bin' % name, enforce='%s_bin' % name,
+                    replace=['C10_writer_init', 'C10_writer_' + A['put']], defines=D, min_post=2,
+                    replay=Replay(mode=low + '_bin', **RP)))
+    gs.append(Group(name='Hash.%s.hex' % name, harness=H, entry='h_hex', function='%s::hex' % name, enforce='%s_hex' % name,
+                    replace=['C10_string_printf_%d' % A['nw']], defines=D, min_post=2,
+                    replay=Replay(mode=low + '_hex', **RP)))
     return gs
 
 
@@ -94,6 +338,11 @@ def plan(ctx):
     u.write()
     ctx.functions_under_contract = list(u.functions)
     groups += fold_groups(ctx)
+    for name in ('MD5', 'SHA1', 'SHA256'):
+        um = md_unit(ctx, src, name)
+        um.write()
+        ctx.functions_under_contract += um.functions
+        groups += md_groups(ctx, name)
     return groups
 
 
